@@ -102,8 +102,20 @@ def run(ctx):
     if not ok:
         return
     n = 64 if ctx.tier == "quick" else 600
-    cases = [cs for cs in c01.generate_cases(ctx, n, check_paths=False) if "error" not in cs]
+    cases = c01.generate_cases(ctx, n, check_paths=False)
+    for cs in cases:
+        if "error" in cs:
+            ctx.count_case(("error", cs["index"]))
+            ctx.violation("writing/reading a generated sequence raised %s" % cs["error"],
+                          dict(kind="roundtrip-raises", case=cs["index"], items=[repr(x) for x in cs["items"]], error=cs["error"]))
+            return
     if check_hashes(ctx, cases):
+        return
+    # what the writer emits for descriptor histories (same-name, identifier-coincident, nested, grouped descriptors; 1-3
+    # writers): every record frame refers to a descriptor frame written before it that defines the record's own type
+    from vf.props import c03
+    _, _, found = c03.explore(ctx, report=True)
+    if found:
         return
     terms, metas = [], []
     rnd = random.Random(ctx.seed + 1)
